@@ -168,6 +168,13 @@ def embeddings(t, idx):
     yield f"y ~ (0 + {p} | g)"
     yield f"y ~ (1 + {p} | g)"
     yield f"y ~ (-1 + {p} | g)"
+    # the removal as a later additive item of the effect side
+    yield f"y ~ ({p} - 1 | g)"
+    yield f"y ~ ({p} + 0 | g)"
+    yield f"y ~ ({t} + -1 | g)"
+    yield f"y ~ (z + 0 + {p} | g + h)"
+    yield f"y ~ (1 + {p} - 1 | g)"
+    yield f"y ~ ({p} + 1 | g)"
     yield f"y ~ z + ({t} | g + h)"
     yield f"y ~ ({t} | g:h)"
     yield f"y ~ ({t} | g/h)"
@@ -253,7 +260,7 @@ def run_shard(i, n, tier, seed, m):
         judge(text, m, origin="random")
     if i == 0:
         # hostile / undocumented placements: executed and counted, never judged
-        for text in ["y ~ a - 0", "y ~ a + (0 + b)", "y ~ (a + 0 | g)", "y ~ a:(b - 1)",
+        for text in ["y ~ a - 0", "y ~ a + (0 + b)", "y ~ (a - 1 + 1 | g)", "y ~ a:(b - 1)",
                      "y ~ (1 + 0 + a | g)", "y ~ (a | g | h)", "y ~ a | g", "y ~ 2", "y ~ a:2",
                      "y ~ (0 | g)", "y ~ a ** b", "y ~ (a + b) ** 0", "a + b ~ c", "a:b ~ c"]:
             m.case({"text": text, "origin": "hostile"}, canon=text)
